@@ -19,7 +19,7 @@ Section Facts.
 
   (* the functors refer to the chemical's own handles and were built from its current inputs *)
   Definition consistent (h : list Cc) (c : chem) : Prop :=
-    w_cn _ _ _ c = c_cn _ _ _ c /\ w_in _ _ _ c = current h c.
+    w_cn _ _ _ c = c_cn _ _ _ c /\ w_in _ _ _ c = current h c /\ w_narrow _ _ _ c = None.
 
   Definition wf (s : state) : Prop :=
     (forall c, In c (snd s) -> (c_cn _ _ _ c < length (fst s))%nat) /\ NoDup (map (c_cn _ _ _) (snd s)).
@@ -105,12 +105,12 @@ Section Facts.
 
   (* ---- consistency ---- *)
   Lemma consistent_rewire h c : consistent h (rewire h c).
-  Proof. split; reflexivity. Qed.
+  Proof. repeat split; reflexivity. Qed.
 
   Lemma consistent_heap_ext h h' c :
     hget h' (c_cn _ _ _ c) = hget h (c_cn _ _ _ c) -> consistent h c -> consistent h' c.
   Proof.
-    intros E [A B]. split; [exact A|]. rewrite B. unfold Rewire.current. rewrite E. reflexivity.
+    intros E (A & B & N). split; [exact A|]. split; [|exact N]. rewrite B. unfold Rewire.current. rewrite E. reflexivity.
   Qed.
 
   Lemma in_nth_error {X} (l : list X) i c : nth_error l i = Some c -> In c l.
@@ -137,7 +137,7 @@ Section Facts.
   Lemma step_inv s o : inv s -> inv (step s o).
   Proof.
     destruct s as [h cs]. intros I. pose proof I as [[B ND] F]. simpl in B, ND, F.
-    destruct o as [i|i|i x|i x|i j names|i ph|i p|i w f]; unfold Rewire.step, on_chem; simpl fst; simpl snd.
+    destruct o as [i|i|i x|i x|i j names|i ph|i ph|i p|i w f]; unfold Rewire.step, on_chem; simpl fst; simpl snd.
     - (* reset *)
       destruct (nth_error cs i) as [c|] eqn:Hi; [|exact I]. simpl.
       apply (inv_replace_same h cs i c); auto. apply consistent_rewire.
@@ -192,11 +192,34 @@ Section Facts.
           -- apply (inv_replace_same h cs i a); auto. apply consistent_rewire.
           -- apply (inv_replace_same h cs i a); auto. rewrite Forall_forall in F. apply F. eapply in_nth_error; eauto.
     - (* at_state *)
-      destruct (nth_error cs i) as [c|] eqn:Hi; [|exact I].
+      destruct (nth_error cs i) as [c|] eqn:Hi; [|exact I]. simpl. unfold at_state_on.
       destruct (c_kind _ _ _ c) eqn:K; simpl.
-      + unfold at_state_rebuilds, rewire_if. apply (inv_replace_same h cs i c); auto. apply consistent_rewire.
+      + unfold at_state_rebuilds, at_state_default_flag, rewire_if. apply (inv_replace_same h cs i c); auto. apply consistent_rewire.
       + apply (inv_replace_same h cs i c); auto. rewrite Forall_forall in F. apply F. eapply in_nth_error; eauto.
       + apply (inv_replace_same h cs i c); auto. rewrite Forall_forall in F. apply F. eapply in_nth_error; eauto.
+    - (* at_state(copy=True) *)
+      destruct (nth_error cs i) as [a|] eqn:Hi; [|exact I].
+      assert (Ca : consistent h a) by (rewrite Forall_forall in F; apply F; eapply in_nth_error; eauto).
+      set (b := rewire_if Cc Hc Sc d0 copy_rebuilds_from_own (h ++ [hget h (c_cn Cc Hc Sc a)]) (set_cn Cc Hc Sc a (length h))).
+      assert (Eb : c_cn _ _ _ b = length h) by reflexivity.
+      assert (Cb : consistent (h ++ [hget h (c_cn Cc Hc Sc a)]) b) by (apply consistent_rewire).
+      set (b' := at_state_on Cc Hc Sc d0 (at_state_copy_inner_flag at_state_default_flag) (h ++ [hget h (c_cn Cc Hc Sc a)]) b ph).
+      assert (Eb' : c_cn _ _ _ b' = length h /\ consistent (h ++ [hget h (c_cn Cc Hc Sc a)]) b').
+      { unfold b', at_state_on. destruct (c_kind _ _ _ b) eqn:K.
+        - unfold at_state_copy_inner_flag, at_state_rebuilds, at_state_default_flag, rewire_if. split; [reflexivity | apply consistent_rewire].
+        - split; assumption.
+        - split; assumption. }
+      destruct Eb' as [Eb' Cb'].
+      split; [split|]; simpl.
+      + intros c Hin. rewrite app_length; simpl. apply in_app_or in Hin. destruct Hin as [Hin|[<-|[]]].
+        * specialize (B c Hin). lia.
+        * rewrite Eb'. lia.
+      + rewrite map_app. simpl. apply NoDup_snoc; [exact ND|]. rewrite Eb'.
+        intros C. apply in_map_iff in C. destruct C as (y & Ey & Hy). specialize (B y Hy). lia.
+      + apply Forall_app. split.
+        * apply Forall_forall. intros c Hin. rewrite Forall_forall in F.
+          apply (consistent_heap_ext h); [apply hget_app; auto | auto].
+        * constructor; [exact Cb' | constructor].
     - (* phase_ref setter *)
       destruct (nth_error cs i) as [c|] eqn:Hi; [|exact I]. simpl.
       unfold phase_ref_setter_rebuilds, rewire_if. apply (inv_replace_same h cs i c); auto. apply consistent_rewire.
@@ -215,7 +238,7 @@ Section Facts.
      own current handles and constants gives *)
   Lemma wiring_is_own s ops c :
     inv s -> In c (snd (run s ops)) ->
-    w_cn _ _ _ c = c_cn _ _ _ c /\ w_in _ _ _ c = current (fst (run s ops)) c.
+    w_cn _ _ _ c = c_cn _ _ _ c /\ w_in _ _ _ c = current (fst (run s ops)) c /\ w_narrow _ _ _ c = None.
   Proof.
     intros I Hin. destruct (run_inv ops s I) as [_ F]. rewrite Forall_forall in F. exact (F c Hin).
   Qed.
